@@ -387,6 +387,10 @@ func (w *naWorld) clientStream(sess *Session, cs *naConnState) {
 	if err != nil {
 		return
 	}
+	if st == nil {
+		simrt.Fail("C19.open_nil", "OpenStream returned neither a stream nor an error (session closed: %v)", sess.shutdown == 1)
+		return
+	}
 	pos := 0
 	for wi, sz := range pl.Writes {
 		if simrt.Failed() {
